@@ -34,13 +34,30 @@ R9 = Fraction(1, 10**9)
 SYMBOL_RE = re.compile(r"^[1a-zA-ZÅₐ-ₜΑ-ω☉.°\-()]+$")
 
 
+def _magnitude_and_terms(m, u):
+    """what str() does with a unit, from its public fields only (used when the library's private helper of that name is
+    not there): the unit's prefix times the first factor's own is pushed into the first factor when it has a root of
+    that factor's exponent, else it becomes a leading magnitude"""
+    terms = [(f.prefix, f.symbol, e) for f, e in u.factors.items()]
+    (prefix, symbol, exponent), rest = terms[0], terms[1:]
+    prefix = u.prefix * prefix
+    magnitude = 1
+    try:
+        first = (prefix.root(exponent), symbol, exponent)
+    except m.FractionalDimensionError:
+        first = terms[0]
+        magnitude = prefix.quantify()
+    return magnitude, [first] + rest
+
+
 def classify_unit_str(m, u, parsed_to=None):
     """mechanism key for a str() that does not parse back to the unit"""
     from measured import formatting
 
     Unit = m.Unit
     try:
-        magnitude, terms = formatting._unit_to_magnitude_and_terms(u)
+        helper = getattr(formatting, "_unit_to_magnitude_and_terms", None)
+        magnitude, terms = helper(u) if helper is not None else _magnitude_and_terms(m, u)
     except Exception:
         return "C13:str-raised"
     if u.symbol:
